@@ -88,10 +88,21 @@ type sellerWorld struct {
 	cycle    time.Duration
 	me       common.Address
 	names    []string
+	hrf      func() *hashrate.Hashrate
+	logSeen  map[string]int
+	epoch    int
+	acct     bool           // print the watcher's running account (delivery histories)
+	added    map[string]int // tasks handed to miners so far, per contract (allocator.VerifOnAddTask)
+	pending  []string       // output lines produced while executing the op
 }
 
-func newSellerWorld(nMiners int, hr float64, cycle time.Duration) *sellerWorld {
-	w := &sellerWorld{ctrs: map[string]resources.Contract{}, cycle: cycle}
+func newSellerWorld(hrs []float64, cycle time.Duration) *sellerWorld {
+	w := &sellerWorld{ctrs: map[string]resources.Contract{}, cycle: cycle, logSeen: map[string]int{}, added: map[string]int{}}
+	allocator.VerifOnAddTask = func(minerID string, taskID string, job float64) {
+		w.mu.Lock()
+		w.added[strings.ToLower(taskID)]++
+		w.mu.Unlock()
+	}
 	w.me = lib.MustPrivKeyStringToAddr(sellerKey)
 	w.chain = vh.NewFakeChain(common.HexToAddress("0x00000000000000000000000000000000000000cf"))
 	log := vh.NopLog()
@@ -103,13 +114,9 @@ func newSellerWorld(nMiners int, hr float64, cycle time.Duration) *sellerWorld {
 	var cancel context.CancelFunc
 	w.minerCtx, cancel = context.WithCancel(context.Background())
 	_ = cancel
-	for i := 0; i < nMiners; i++ {
-		m := vhs.NewMiner(fmt.Sprintf("m%d", i), hr, sellerDefault)
-		sc := allocator.NewScheduler(m, "mean", sellerDefault, 0, hrf, nil, nil, log)
-		m.Sched = sc
-		w.alloc.GetMiners().Store(sc)
-		w.miners = append(w.miners, m)
-		go sc.Run(w.minerCtx)
+	w.hrf = hrf
+	for i, hr := range hrs {
+		w.addMiner(fmt.Sprintf("m%d", i), hr)
 	}
 	f, err := NewContractFactory(w.alloc, hrf, hashrate.NewGlobalHashrate(hrf), w.store,
 		func(string) (interfaces.ILogger, error) { return log, nil },
@@ -121,10 +128,26 @@ func newSellerWorld(nMiners int, hr float64, cycle time.Duration) *sellerWorld {
 	return w
 }
 
+// addMiner connects a miner: what the TCP handler does (a Scheduler over the miner's proxy, listed, running).
+func (w *sellerWorld) addMiner(id string, hr float64) {
+	m := vhs.NewMiner(id, hr, sellerDefault)
+	sc := allocator.NewScheduler(m, "mean", sellerDefault, 0, w.hrf, nil, nil, vh.NopLog())
+	m.Sched = sc
+	w.alloc.GetMiners().Store(sc)
+	w.mu.Lock()
+	w.miners = append(w.miners, m)
+	w.mu.Unlock()
+	go func() {
+		_ = sc.Run(w.minerCtx)
+		w.alloc.GetMiners().Delete(id)
+	}()
+}
+
 // startNode does what ContractManager.Run does at start-up for the contracts the node sells.
 func (w *sellerWorld) startNode() {
 	ctx, cancel := context.WithCancel(context.Background())
 	w.cancel = cancel
+	w.epoch++
 	w.ctrs = map[string]resources.Contract{}
 	for _, a := range w.chain.Order {
 		terms, err := w.store.GetContract(ctx, a.Hex())
@@ -165,6 +188,40 @@ func (w *sellerWorld) observe(tr *vh.Transcript) {
 			e = 1
 		}
 		tr.Out("ctr %s state=%s run=%d dest=%s err=%d", n, ctr.State(), run, dest, e)
+		// the watcher's own account of every cycle that ended since the last observation
+		if ws, ok := ctr.(*ControllerSeller); ok {
+			logs, _ := ws.GetDeliveryLogs()
+			key := a.Hex() + fmt.Sprint(w.epoch)
+			from := w.logSeen[key]
+			if from > len(logs) {
+				from = len(logs)
+			}
+			for _, le := range logs[from:] {
+				tr.Out("cyclelog %s actual=%d under=%d gunder=%d next=%d fullghs=%d full=%d partial=%d", n, le.ActualGHS, le.UnderDeliveryGHS,
+					le.GlobalUnderDeliveryGHS, le.NextCyclePartialDeliveryTargetGHS, le.FullMinersGHS, len(le.FullMiners), len(le.PartialMiners))
+			}
+			w.logSeen[key] = len(logs)
+			// the watcher's running account (read while every goroutine of the bubble is blocked)
+			if w.acct && ws.ContractWatcherSellerV2.stats != nil && ws.IsRunning() {
+				st := ws.ContractWatcherSellerV2.stats
+				full := st.fullMiners.ToSlice()
+				sort.Strings(full)
+				part := append([]string{}, st.partialMiners...)
+				sort.Strings(part)
+				var conn []string
+				for _, mm := range w.miners {
+					if w.connected(mm.ID) {
+						conn = append(conn, mm.ID)
+					}
+				}
+				sort.Strings(conn)
+				w.mu.Lock()
+				added := w.added[strings.ToLower(ws.ID())]
+				w.mu.Unlock()
+				tr.Out("acct %s target=%d gunder=%d rem=%d added=%d full=%s partial=%s conn=%s", n, int(st.deliveryTargetGHS), st.globalUnderDeliveryGHS.Load(),
+					int(ws.remainingCycleDuration()/time.Second), added, strings.Join(full, ","), strings.Join(part, ","), strings.Join(conn, ","))
+			}
+		}
 	}
 	nild := 0
 	var ms []string
@@ -183,6 +240,22 @@ func (w *sellerWorld) observe(tr *vh.Transcript) {
 		ms = append(ms, fmt.Sprintf("%s=%s", m.ID, where))
 	}
 	sort.Strings(ms)
+	// work delivered so far to each contract's destination, in GH/s x seconds
+	unit := hashrate.GHSToJobSubmittedV2(1, time.Second)
+	var dl []string
+	for _, n := range w.names {
+		var sum float64
+		for _, mm := range w.miners {
+			_, del := mm.Snapshot()
+			for k, v := range del {
+				if strings.HasPrefix(strings.ToLower(k), strings.ToLower(sellerAddr(n).Hex())+"@") {
+					sum += v
+				}
+			}
+		}
+		dl = append(dl, fmt.Sprintf("%s=%d", n, int64(sum/unit+0.5)))
+	}
+	tr.Out("delivered %s", strings.Join(dl, " "))
 	tr.Out("miners %s", strings.Join(ms, " "))
 	tr.Out("nildest %d", nild)
 }
@@ -221,7 +294,20 @@ func sellerExec(tr *vh.Transcript, ops []string) {
 			fmt.Sscan(m["miners"], &n)
 			fmt.Sscan(m["hr"], &hr)
 			fmt.Sscan(m["cycle"], &cyc)
-			w = newSellerWorld(n, hr, time.Duration(cyc)*time.Second)
+			var hrs []float64
+			if l, ok := m["hrs"]; ok { // explicit population
+				for _, x := range strings.Split(l, ",") {
+					var v float64
+					fmt.Sscan(x, &v)
+					hrs = append(hrs, v)
+				}
+			} else {
+				for i := 0; i < n; i++ {
+					hrs = append(hrs, hr)
+				}
+			}
+			w = newSellerWorld(hrs, time.Duration(cyc)*time.Second)
+			w.acct = m["acct"] == "1"
 			tr.Op("%s", op)
 			continue
 		case "chain":
@@ -261,6 +347,18 @@ func sellerExec(tr *vh.Transcript, ops []string) {
 				setC(c, m)
 				go w.chain.Emit(c.Addr, "cipherTextUpdated", c.EncrValidatorURL)
 			}
+		case "minerdown": // the miner disconnects; @full / @partial / @free pick a miner by its role for c1
+			id := w.pickMiner(f[1])
+			w.pending = append(w.pending, w.describeLeaving(id))
+			for _, mm := range w.miners {
+				if mm.ID == id && id != "" {
+					mm.Disconnect(fmt.Errorf("miner gone"))
+				}
+			}
+		case "minerup": // a new miner connects
+			var hr float64
+			fmt.Sscan(m["hr"], &hr)
+			w.addMiner(f[1], hr)
 		case "advance":
 			var s int
 			fmt.Sscan(f[1], &s)
@@ -268,8 +366,97 @@ func sellerExec(tr *vh.Transcript, ops []string) {
 		}
 		synctest.Wait()
 		tr.Op("%s", op)
+		for _, l := range w.pending {
+			tr.Out("%s", l)
+		}
+		w.pending = nil
 		w.observe(tr)
 	}
+}
+
+// watcherOf returns the running seller watcher of contract n, if any
+func (w *sellerWorld) watcherOf(n string) *ControllerSeller {
+	if ws, ok := w.ctrs[sellerAddr(n).Hex()].(*ControllerSeller); ok && ws.IsRunning() && ws.ContractWatcherSellerV2.stats != nil {
+		return ws
+	}
+	return nil
+}
+
+func (w *sellerWorld) connected(id string) bool {
+	_, ok := w.alloc.GetMiners().Load(id)
+	return ok
+}
+
+// pickMiner resolves @full / @partial / @free to the first connected miner in that role for contract c1
+func (w *sellerWorld) pickMiner(sel string) string {
+	if !strings.HasPrefix(sel, "@") {
+		return sel
+	}
+	ws := w.watcherOf("c1")
+	var full, part []string
+	if ws != nil {
+		full = ws.ContractWatcherSellerV2.stats.fullMiners.ToSlice()
+		part = append([]string{}, ws.ContractWatcherSellerV2.stats.partialMiners...)
+	}
+	sort.Strings(full)
+	sort.Strings(part)
+	switch sel {
+	case "@full":
+		for _, id := range full {
+			if w.connected(id) {
+				return id
+			}
+		}
+	case "@partial":
+		for _, id := range part {
+			if sc, ok := w.alloc.GetMiners().Load(id); ok {
+				for _, t := range sc.GetTasksByID(ws.ID()) {
+					if t.RemainingJobToSubmit.Load() > 0 {
+						return id
+					}
+				}
+			}
+		}
+	case "@free":
+		for _, mm := range w.miners {
+			if sc, ok := w.alloc.GetMiners().Load(mm.ID); ok && sc.IsFree() {
+				return mm.ID
+			}
+		}
+	}
+	return ""
+}
+
+// describeLeaving says what the contract c1 loses with miner id: its role, and the rate replaceMiner owes for it
+func (w *sellerWorld) describeLeaving(id string) string {
+	if id == "" {
+		return "down - role=none hr=0 owed=0"
+	}
+	var nominal float64
+	for _, mm := range w.miners {
+		if mm.ID == id {
+			nominal = mm.HrGHS
+		}
+	}
+	sc, ok := w.alloc.GetMiners().Load(id)
+	ws := w.watcherOf("c1")
+	if !ok || ws == nil {
+		return fmt.Sprintf("down %s role=none hr=%d owed=0", id, int(nominal))
+	}
+	st := ws.ContractWatcherSellerV2.stats
+	role := "free"
+	owed := 0
+	if st.fullMiners.Contains(id) && len(sc.GetTasksByID(ws.ID())) > 0 {
+		role, owed = "full", int(sc.HashrateGHS())
+	} else {
+		for _, t := range sc.GetTasksByID(ws.ID()) {
+			if j := t.RemainingJobToSubmit.Load(); j > 0 {
+				role = "partial"
+				owed += int(hashrate.JobSubmittedToGHSV2(float64(j), ws.remainingCycleDuration()))
+			}
+		}
+	}
+	return fmt.Sprintf("down %s role=%s hr=%d owed=%d", id, role, int(nominal), owed)
 }
 
 func kvS(f []string) map[string]string {
@@ -345,5 +532,109 @@ func TestVerifSeller(t *testing.T) {
 	for c := 0; c < n; c++ {
 		tr.Case(c, "seller")
 		run(sellerGen(root.Fork()))
+	}
+}
+
+// ---- C09: delivery tracks the contracted rate ----------------------------------------------------------
+
+func deliveryGen(r *vh.Rng) []string {
+	var hrs []string
+	total := 0
+	class := r.Intn(10) // 0 many small; 1,2 few large; 3,4 mixed; 5,6,7 disconnect storm; 8,9 busy fleet
+	add := func(h int) { hrs, total = append(hrs, fmt.Sprint(h)), total+h }
+	switch class {
+	case 0:
+		for i, n := 0, 20+r.Intn(30); i < n; i++ {
+			add(90 + r.Intn(60))
+		}
+	case 1, 2:
+		for i, n := 0, 3+r.Intn(3); i < n; i++ {
+			add(4000 + 1000*r.Intn(8))
+		}
+	case 8, 9: // a handful of similar miners, most of them needed
+		for i, n := 0, 4+r.Intn(3); i < n; i++ {
+			add(vh.Pick(r, []int{1000, 2000, 2000, 3000}))
+		}
+	default:
+		for i, n := 0, 5+r.Intn(10); i < n; i++ {
+			add(vh.Pick(r, []int{120, 500, 1000, 1000, 2500, 6000}))
+		}
+	}
+	cycle := vh.Pick(r, []int{60, 120, 300})
+	ops := []string{fmt.Sprintf("world hrs=%s cycle=%d acct=1", strings.Join(hrs, ","), cycle)}
+	rate := vh.Pick(r, []int{300, 800, 1500, 2600, total / 4, total / 2, total * 3 / 4})
+	if class >= 8 {
+		rate = vh.Pick(r, []int{total * 3 / 4, total * 2 / 3, total - 1200})
+	}
+	if rate < 150 {
+		rate = 150
+	}
+	cycles := 4 + r.Intn(8)
+	length := cycle*cycles + 30
+	ops = append(ops, fmt.Sprintf("chain c1 state=0 len=%d hr=%d", cycle*cycles, rate), "startnode",
+		fmt.Sprintf("purchased c1 len=%d hr=%d payload=v:poolx", length, rate))
+	next := len(hrs)
+	newHr := func() int {
+		switch class {
+		case 0:
+			return vh.Pick(r, []int{120, 120, 1000, 3000})
+		case 8, 9:
+			return vh.Pick(r, []int{2000, 3000})
+		}
+		return vh.Pick(r, []int{120, 1000, 3000})
+	}
+	joinLater := 0 // a replacement that joins a while after a miner left
+	for elapsed := 0; elapsed < length+cycle/2; {
+		step := vh.Pick(r, []int{5, 12, 13, 30, cycle / 2, cycle / 2, cycle - 7})
+		ops = append(ops, fmt.Sprintf("advance %d", step))
+		elapsed += step
+		if joinLater > 0 {
+			if joinLater -= step; joinLater <= 0 {
+				ops = append(ops, fmt.Sprintf("minerup m%d hr=%d", next, newHr()))
+				next++
+			}
+		}
+		x := r.Intn(100)
+		switch {
+		case class >= 5 && x < 35:
+			ops = append(ops, "minerdown "+vh.Pick(r, []string{"@full", "@full", "@full", "@partial", "@partial", "@free"}))
+			switch r.Intn(4) {
+			case 0: // a spare joins at once
+				ops = append(ops, fmt.Sprintf("minerup m%d hr=%d", next, newHr()))
+				next++
+			case 1: // ... or a while later
+				joinLater = 20 + r.Intn(60)
+			}
+		case class < 5 && x < 10:
+			ops = append(ops, vh.Pick(r, []string{fmt.Sprintf("minerdown m%d", r.Intn(next)), "minerdown @full"}))
+		case class < 5 && x < 16:
+			ops = append(ops, fmt.Sprintf("minerup m%d hr=%d", next, newHr()))
+			next++
+		}
+	}
+	return ops
+}
+
+func TestVerifDelivery(t *testing.T) {
+	tr := vh.OpenTranscript("delivery.impl.txt")
+	defer tr.Close()
+	run := func(ops []string) {
+		defer func() {
+			if r := recover(); r != nil {
+				tr.Note("bubble-exit: %v", r)
+			}
+		}()
+		synctest.Test(t, func(t *testing.T) { sellerExec(tr, ops) })
+	}
+	if ops := vh.ReplayOps(); ops != nil {
+		tr.Case(0, "replay")
+		run(ops)
+		return
+	}
+	root := vh.NewRng(vh.Seed())
+	n := vh.EnvInt("VERIF_N", 60)
+	for c := 0; c < n; c++ {
+		tr.Case(c, "delivery")
+		run(deliveryGen(root.Fork()))
 	}
 }
